@@ -366,3 +366,38 @@ def r6(ctx: Ctx) -> None:
     from . import C06 as _c06
     from .common import support
     support(ctx, [_c06.r1, _c06.r2, _c06.r5, _c06.r6, _c06.r7], {"create_stog", "Rectangle.find_location", "Module.create_stog", "Module.has_stog"})
+
+
+@rule("C15", "R7.run-extraction", "LOOP-COVER",
+      "the branches on a side are the maximal runs of equal non-zero height of that side's histogram: whenever the height changes "
+      "the open run is closed (emitted if its height is not 0) AND a new run is opened at the current index with the new height -- "
+      "both unconditionally -- and the last run is emitted after the loop; four loops, one per side", floor=4)
+def r7_runs(ctx: Ctx) -> None:
+    f = ctx.func(STROP, "StropInstance.__init__")
+    c = canon_function(f, ctx.model)
+    n = bad = 0
+    for lp in atoms_of(c, lambda x: x[0] == "for" and len(x) == 5 and len(x[3]) == 1 and x[3][0][0] == "if" and x[3][0][3] == ()):
+        i = lp[1]
+        chg = lp[3][0]
+        p_ = chg[1]
+        if not (p_[0] == "ne0" and contains(p_, i)):
+            continue
+        hists = [a for a in to_poly(p_[1]).atoms() if a[0] == "s" and a[2] == i]
+        curs = [a for a in to_poly(p_[1]).atoms() if a[0] == "v"]
+        if len(hists) != 1 or len(curs) != 1:
+            continue
+        n += 1
+        hist, cur = hists[0], curs[0]
+        arm = chg[2]
+        reopened = [st for st in arm if st[0] == "set" and len(st) == 3 and st[2] == i and st[1][0] == "v"]
+        updated = ("set", cur, hist) in arm
+        emits = [st for st in arm if st[0] == "if" and st[3] == () and contains(st[2], "append") and st[1] == ("ne0", (-to_poly(cur)).leading_sign_normalised().to_s())
+                 or (st[0] == "if" and st[3] == () and contains(st[2], "append") and contains(st[1], cur) and st[1][0] == "ne0")]
+        ctx.site(f.where, "height change: run closed (emitted if non-zero), new run opened at the current index, height updated", loop_over=show(lp[2])[:80],
+                 reopened=len(reopened), updated=updated, emits=len(emits))
+        if len(reopened) != 1 or not updated or len(emits) != 1 or len(arm) != 3:
+            bad += 1
+            ctx.report(f.where, f"run-not-reopened {show(hist)[:40]}", "when the height of the histogram changes the next run is not opened at the current index "
+                       "unconditionally (or the height is not updated / the closed run not emitted): a branch that follows a branch of another non-zero height "
+                       "starts where the previous one started, so the rectangles overlap and the module's shape is wrong", lineno=f.node.lineno)
+    ctx.require(n >= 4 or bad, f"run-extraction loops not found ({n})")
